@@ -26,6 +26,8 @@ the pair (result, final index); an `end` pointer into the same array is an index
 `f(sp, ep)` to such a function binds the pair and updates sp.  `continue`, `do { } while (false)`, `(void)e;`,
 `p += n`, casts between byte-pointer types (a view of the array through wrapu 8 / wraps 8), integer locals declared
 without initialiser (reading one before it is assigned is rejected) are supported.
+A parameter `T *&dest` with a non-const pointee that is used only in statements `*dest++ = e` is a write-only cursor:
+the function returns the pair (result, list of the values stored, in order, each converted to T).
 Anything else makes the translation of that function fail (reported; the obligation that mentions it then no longer
 compiles)."""
 import json
@@ -59,6 +61,8 @@ TARGETS = [
     ('utf16_measure_from_utf8', 'size_t (const char *, size_t)'),
     ('utf32_measure_from_utf8', 'size_t (const char *, size_t)'),
     ('utf32_measure_from_utf16', 'size_t (const char16_t *, size_t)'),
+    ('write_utf8', '_ST_PRIVATE::conversion_error_t (char *&, char32_t)'),
+    ('write_utf16', '_ST_PRIVATE::conversion_error_t (char16_t *&, char32_t)'),
 ]
 # a pointer parameter that points into the array of another parameter (one past its end): it is passed as an index
 ALIAS_PARAMS = {('extract_utf8', 'end'): 'utf8', ('extract_utf16', 'end'): 'utf16'}
@@ -638,6 +642,8 @@ class Translator:
             lets, env2 = self.apply_pending(pend, env)
             if self.ref_ptrs:
                 v = '%s(%s, %s)' % (lets, v, env2[self.ref_ptrs[0]])
+            elif self.out_cursor is not None:
+                v = '(%s, %s)' % (v, env[('out', self.out_cursor)])
             return self.with_binds(binds, '(Some %s)' % v) if self.opt else self.with_binds(binds, v)
         if k in ('WhileStmt', 'ForStmt'):
             if not self.opt:
@@ -723,6 +729,11 @@ class Translator:
             t = self.stmts([inner[1]] + rest, env)
             e = self.stmts(([inner[2]] if len(inner) > 2 else []) + rest, env)
             return self.with_binds(binds, '(if z2b %s then %s else %s)' % (cond, t, e))
+        if self.out_cursor is not None and k == 'BinaryOperator' and s.get('opcode') == '=' and is_cursor_store(inner[0], self.out_cursor):
+            v, _, binds = self.full_expr(inner[1], env)
+            env2 = dict(env)
+            env2[('out', self.out_cursor)] = '(%s ++ [%s])' % (env[('out', self.out_cursor)], v)
+            return self.with_binds(binds, self.stmts(rest, env2))
         if k == 'CStyleCastExpr' and n_cast_to_void(s):
             _, pend, binds = self.full_expr(inner[0], env, allow_pending=True)
             lets, env2 = self.apply_pending(pend, env)
@@ -820,7 +831,7 @@ class Translator:
         self.fields, self.field_order = {}, []
         self.ptr_base, self.var_names, self.arrays = {}, {}, []
         self.loop_defs, self.loop_count, self.cur_name, self.fuel, self.pending = [], 0, cname or name, 'fuel', None
-        self.binds, self.shortcircuit, self.loop_stack, self.ref_ptrs = None, 0, [], []
+        self.binds, self.shortcircuit, self.loop_stack, self.ref_ptrs, self.out_cursor = None, 0, [], [], None
         self.opt = self.fuelled((name, qt))
         for c in n.get('inner', []) or []:
             if c.get('kind') == 'ParmVarDecl':
@@ -831,6 +842,11 @@ class Translator:
                     params.append(('rec', c['id']))
                     continue
                 self.var_names[c['id']] = c.get('name', 'arg%d' % len(params))
+                if q.replace(' ', '').endswith('*&') and not (c.get('type') or {}).get('qualType', '').strip().startswith('const '):
+                    # write-only cursor
+                    self.out_cursor = c['id']
+                    env[('out', c['id'])] = '[]'
+                    continue
                 if q.replace(' ', '').endswith('*&'):
                     pname = 'p_' + c['name']
                     params.append('(%s : Z -> Z)' % pname)
@@ -878,7 +894,7 @@ class Translator:
             if self.ref_ptrs:
                 raise Unsupported('loop in a function with a T*& parameter')
             return '\n\n'.join(self.loop_defs + ['Definition src_%s (fuel : nat) %s : option Z :=\n  %s.' % (cname or name, ' '.join(plist), text)])
-        return 'Definition src_%s %s : %s :=\n  %s.' % (cname or name, ' '.join(plist), 'Z * Z' if self.ref_ptrs else 'Z', text)
+        return 'Definition src_%s %s : %s :=\n  %s.' % (cname or name, ' '.join(plist), 'Z * Z' if self.ref_ptrs else ('Z * list Z' if self.out_cursor is not None else 'Z'), text)
 
 
 def has_loop(n):
@@ -897,6 +913,23 @@ def contains_kind(n, kinds):
     return any(contains_kind(c, kinds) for c in (n.get('inner') or []))
 
 
+def is_cursor_store(lhs, vid):
+    """*dest++ with dest the write-only cursor"""
+    while lhs.get('kind') == 'ParenExpr':
+        lhs = lhs['inner'][0]
+    if lhs.get('kind') != 'UnaryOperator' or lhs.get('opcode') != '*':
+        return False
+    x = lhs['inner'][0]
+    while x.get('kind') in ('ParenExpr', 'ImplicitCastExpr'):
+        x = x['inner'][0]
+    if x.get('kind') != 'UnaryOperator' or x.get('opcode') != '++' or not x.get('isPostfix'):
+        return False
+    y = x['inner'][0]
+    while y.get('kind') == 'ParenExpr':
+        y = y['inner'][0]
+    return y.get('kind') == 'DeclRefExpr' and (y.get('referencedDecl') or {}).get('id') == vid
+
+
 def n_cast_to_void(s):
     return s.get('castKind') == 'ToVoid'
 
@@ -912,7 +945,8 @@ def n_is_incdec(s):
 PRELUDE = '''(* GENERATED by tools/leaf_translate.py from the clang AST of the current headers — do not edit.
    C++ integer semantics written out over Z: wrapu / wraps = conversion to an unsigned / signed type of the given
    width (two's complement, as on this platform); b2z / z2b = bool <-> integer. *)
-From Coq Require Import ZArith Bool.
+From Coq Require Import ZArith Bool List.
+Import ListNotations.
 Local Open Scope Z_scope.
 Definition wrapu (bits : Z) (x : Z) : Z := x mod 2 ^ bits.
 Definition wraps (bits : Z) (x : Z) : Z := (x + 2 ^ (bits - 1)) mod 2 ^ bits - 2 ^ (bits - 1).
